@@ -69,8 +69,9 @@ fn fixture(i: usize) -> Fixture {
     0 => Fixture {
       name: "plain",
       install: Box::new(|l| {
-        l.add_text("https://x/root.ts", "import \"./a.ts\";\nimport \"./r.ts\";\nimport data from \"./data.json\" with { type: \"json\" };\nimport txt from \"./t.ts\" with { type: \"text\" };\nimport \"./t.ts\";\nawait import(\"./c.ts\");\n");
-        l.add_text("https://x/a.ts", "import \"./b.ts\";\nexport const a = 1;\n");
+        l.add_text("https://x/root.ts", "import \"./a.ts\";\nimport \"./r.ts\";\nimport data from \"./data.json\" with { type: \"json\" };\nimport txt from \"./t.ts\" with { type: \"text\" };\nawait import(\"./c.ts\");\n");
+        // a.ts imports t.ts as a module while root imports it as text: that module load is deferred behind the asset load
+        l.add_text("https://x/a.ts", "import \"./b.ts\";\nimport \"./t.ts\";\nexport const a = 1;\n");
         l.add_text("https://x/b.ts", "export const b = 1;\n");
         // the dynamic branch asks again for what the static part has settled
         l.add_text("https://x/c.ts", "import \"./b.ts\";\nimport \"./a.ts\";\nimport \"./r.ts\";\nimport \"./t.ts\";\nexport const c = 1;\n");
@@ -533,6 +534,16 @@ fn body_sched(fixtures: Vec<usize>, mode: SchedMode) -> impl Fn(&Ch) -> Run + Sy
         };
         let a = &strip(&o["slots"][s.as_str()]);
         let b = &strip(&o0["slots"][s.as_str()]);
+        // whether a file that one module imports as an asset is also a module
+        // of the graph depends on its *other* importers: not comparable when
+        // one of those is hit by a fault
+        let module_importer_tainted = g0.modules().any(|m| {
+          is_tainted(m.specifier().as_str())
+            && m.dependencies().values().any(|d| d.maybe_attribute_type.is_none() && d.get_code().is_some_and(|t| g0.resolve(t) == s))
+        });
+        if (a["kind"] == "external" || b["kind"] == "external") && module_importer_tainted {
+          continue;
+        }
         if a != b && !b.is_null() {
           run.violate(
             format!("unaffected-module-changed@{first_fault}"),
